@@ -24,7 +24,7 @@ import (
 func init() {
 	core.Register(&core.Simple{
 		Id: "C17", Lvl: "exploration", Quick: 320, Thorough: 6000, PerBatch: 80, Width: 40, Timeout: 1500,
-		RuleText: "each case: an administrator disconnects a target (an ordinary named user, a user who agreed with an empty name, or a 1.5+ client between login and agreed; for the last no user-left notice is demanded) at a random IPv4 address with option none / temporary / permanent ban (optionally after an earlier expired or temporary entry for the same address; or the case injects a ban entry whose expiry lies 2 s .. 24 h in the past or 1 min .. 24 h in the future); oracles: reply, target connection closed, every other client receives a user-left notice, ban entry in memory and in Banlist.yaml with expiry bracketed by the harness clock readings + 30 min (no slack), then reconnect attempts from the same address (other port; also over a connection that had been accepted before the ban but had not yet sent its handshake), near-miss addresses (a.b.c.d0, 1a.b.c.d, neighbour host) and an unrelated address, before and after a restart on the same ban file: a banned address must get handshake reply + one ban notice + close with its login transaction unprocessed, all others must log in. a stress batch has 4-8 administrators ban different users at the same moment and then restarts: every address must still be banned. distinct = (ban option or injected expiry class, restart phase, address class); non-trivial = every case",
+		RuleText: "each case: an administrator disconnects a target (an ordinary named user, a user who agreed with an empty name, or a 1.5+ client between login and agreed; for the last no user-left notice is demanded) at a random IPv4 address with option none / temporary / permanent ban (the option sent as a 2-byte or, in a quarter of the cases, a 4-byte integer; optionally after an earlier expired or temporary entry for the same address; or the case injects a ban entry whose expiry lies 2 s .. 24 h in the past or 1 min .. 24 h in the future); oracles: reply, target connection closed, every other client receives a user-left notice, ban entry in memory and in Banlist.yaml with expiry bracketed by the harness clock readings + 30 min (no slack), then reconnect attempts from the same address (other port; also over a connection that had been accepted before the ban but had not yet sent its handshake), near-miss addresses (a.b.c.d0, 1a.b.c.d, neighbour host) and an unrelated address, before and after a restart on the same ban file: a banned address must get handshake reply + one ban notice + close with its login transaction unprocessed, all others must log in. a stress batch has 4-8 administrators ban different users at the same moment and then restarts: every address must still be banned. distinct = (ban option or injected expiry class, restart phase, address class); non-trivial = every case",
 		Case:     runCase,
 		Extra: func(tier string, seed int64) []core.Batch {
 			n := 8
@@ -330,14 +330,20 @@ func runCase(c *core.Case) {
 		adm.Drain()
 		obs.Drain()
 		fs := []rc.Field{rc.F(103, rc.U16(int(tid)))}
+		enc := rc.U16
+		if r.Chance(1, 4) {
+			enc = rc.U32 // the ban option as a 4-byte integer, which the protocol allows as well
+			desc += "/option-as-4-bytes"
+			c.Count("ban_option_as_4_bytes", 1)
+		}
 		switch mode {
 		case "kick-temp":
-			fs = append(fs, rc.F(113, rc.U16(1)))
+			fs = append(fs, rc.F(113, enc(1)))
 		case "kick-perm":
-			fs = append(fs, rc.F(113, rc.U16(2)))
+			fs = append(fs, rc.F(113, enc(2)))
 		case "kick":
 			if r.Bool() {
-				fs = append(fs, rc.F(113, rc.U16(0)))
+				fs = append(fs, rc.F(113, enc(0)))
 			}
 		}
 		tBefore := time.Now()
